@@ -30,7 +30,7 @@ CONFIG = {
 }
 
 ITER_ALLOWED = [DERIVE_ALLOWED, r'^external_body pub fn (new|f32_mul|into_iter)', r'^assume_specification pub assume_specification<T, A', r'^external fn fmt|^external impl|verifier::external', r'axiom_cardpair_key_model', r'^assume_specification pub assume_specification<T> \[<\[T\]>',
-                r'^uninterp spec pub uninterp spec fn (class7|tables_ok|f32_mul_spec)', r'axiom_card_key_model']
+                r'^uninterp spec pub uninterp spec fn (class7|tables_ok|f32_mul_spec|unit_interval)', r'axiom_card_key_model', r'axiom_unit_interval_(mul|one)']
 ITER_ASSUME = [
     DERIVE,
     'Card key model: derived Hash/Eq of Card agree (broadcast axiom), so vstd set semantics apply to HashSet<Card>',
@@ -169,7 +169,7 @@ def _k_card(name, names, bounded=None):
 STR_BOUND_Q = 'strings: every ASCII string of <= 9 bytes, and every such string with the two-byte character "é" at any offset (quick); <= 12 bytes (thorough). Longer inputs differ only in the digit run of the weight.'
 TOKEN_ASSUME = [
     'Kani harnesses run on a scratch copy in which every `Regex::new(r"...")` call site of the CURRENT source is replaced by a DFA generated from that literal (extract/dfa.py; cross-checked against Python\'s re on ~778k strings per run) -- regex::Regex itself is not verified',
-    'parse_probability is stubbed by a deterministic abstraction of f32::from_str on the weight grammar [01](\\.[0-9]+)? that preserves the comparison with 1.0 and membership in [0,1] (its source is pinned by nothing: it is 7 lines; its own slicing is after starts_with(":"))',
+    'parse_probability is stubbed by an OVER-approximation of a correctly rounded f32::from_str on the weight grammar [01](\\.[0-9]+)?: "0"/"0.00" -> 0.0; "0.<nonzero>" -> any f32 in [0,1] (symbolic, fixed per run, since the parser reads the weight twice); "1"/"1.00" -> 1.0; "1.<nonzero within 7 digits>" -> any f32 in [1+EPSILON, 2); "1.<nonzero later>" -> 1.0 or 1+EPSILON. Correct rounding of f32::from_str is assumed (documented behaviour of std); parse_probability\'s own 7 lines are not under the harness',
     'strings are built with from_utf8_unchecked from bytes that are valid UTF-8 by construction (std\'s UTF-8 validation of symbolic bytes is intractable for CBMC); arbitrary multi-byte content is represented by one two-byte character at every offset',
     'token_wf in the Kani harness and in the Verus unit are hand-written mirrors of each other',
     DERIVE,
@@ -225,7 +225,7 @@ MULTI['C10'] = dict(
     assumptions=TOKEN_ASSUME + LIST_ASSUME + [
         'Kani (bounded strings): Ok(t) ==> token_wf(t): weight in [0,1] (under the parse_probability abstraction: accepted tokens carry the parsed value, values above 1 are rejected), SingleCardPair has two different cards, spans ordered',
         'Verus (unit TOKEN): every entry of the expansion carries the token\'s weight; lemma_token_distinct: every combo of expand_combos(t) has two different cards',
-        'Kani (complete, binary32): a, b in [0,1] ==> a*b in [0,1] and 1.0*a == a; Verus (unit ITER): a showdown\'s probability is the left fold of f32 products of the chosen weights (f32_mul uninterpreted there) -- the induction over the fold is on paper',
+        'Kani (complete, binary32): a, b in [0,1] ==> a*b in [0,1] and 1.0*a == a; Verus (unit ITER): a showdown\'s probability is the left fold of f32 products of the chosen weights (f32_mul uninterpreted there); lemma_prob_unit / lemma_run_probabilities: if every weight of every range is in [0,1] then so is the probability of every showdown of a run -- induction over the fold, with the Kani fact imported as axiom_unit_interval_mul / axiom_unit_interval_one (the only link between the two engines)',
         'Verus (unit ITER): lemma_legal_distinct: a yielded deal has 5+2n pairwise different cards',
         'f32::from_str returns a non-negative finite value on the weight grammar (documented behaviour, not verified)',
     ],
